@@ -64,6 +64,10 @@ CHECKS = {
          "C17_terminates / C17_each_read_once / C17_closure_and_definitions / C17_relative_to_importer / C17_broken_import_is_an_error / C17_global_alongside_project for all file systems and import graphs. Tied to the code EXHAUSTIVELY on every import graph over <=3 files in nested directories (self-loops, cycles), sampled with reversed lists and redundant relative paths, random graphs to 7 files with directory and repeated imports, one file missing/unparsable at every position, mis-shapen import fields, all 64 global/project splits.",
          "Trusted: Coq kernel; transcription of Loader.load/loadDir (imports set, path.Join/Clean on segment lists); mergo on non-conflicting maps = concatenation; yaml.v2, filepath.Glob order, os.Stat; URL imports not modelled; python driver + binary. No axioms.",
          "DESIGN.md section 6 C17", "cli"),
+ "C18": ("Coq proof: accepted <-> well-formed (references to tasks/pipelines, depends_on within the pipeline, watcher tasks, unique stage names, acyclic dependencies via the C05 graph theorem, acyclic inclusion) for all definitions, and - composed with the scheduler LTS - no execution of an accepted pipeline reaches the `unknown task` abort; accept/reject of the real binary on generated configurations with exactly one reference broken at every position compared with the model and with the by-construction oracle; every pipeline of accepted configurations run and drawn under a time limit",
+         "C18_accepted_iff_well_formed / C18_run_never_aborts / C18_inclusion_acyclic for all definitions and all scheduler executions. Tied to the code by ~40 (thorough 150) generated configurations x every single breakage of 8 kinds at every position + the repaired originals.",
+         "Trusted: Coq kernel; reduction of buildFromDefinition/buildPipeline/buildWatcher to names and references; Model/Graph.v (C05) for both cycle checks; to_config into Model/Sched.v; python driver + binary. No axioms.",
+         "DESIGN.md section 6 C18", "cli"),
  "C19": ("Coq proof (partial): chunking-invariance of the prefixed writer (for every stream and every splitting into Write calls that does not cut an escape sequence, for every line-local stripper), whole-line shape of every sink write, projection theorem for arbitrary interleavings of concurrent writers, raw identity, cockpit call-sequence safety; sink writes of the real decorators (exhaustive small streams x all splits, long random streams, 1..8 concurrent writers) compared with the model and monitored in Coq; bufio.ScanLines and Go's regexp validated against the model's scanner/matcher; every task outcome under the three formats in child processes",
          "PARTIAL: C19_prefixed_faithful / C19_prefixed_whole_lines / C19_interleaving / C19_raw_identity / C19_cockpit_no_crash are proved for all streams, chunkings and interleavings; the full statement is refuted for chunkings that cut an ANSI sequence (C19_refuted_ansi_straddle = known finding K1). Atomicity of a sink Write, spinner timing/lock order and format-independence of results are observed only.",
          "Trusted: Coq kernel; transcription of prefixed.go/raw.go/cockpit.go call structure; Model/Regex.v used for predictions and the K1 class only (validated against Go regexp each run); Go engines output/taskrun-child, python driver. No axioms.",
